@@ -236,8 +236,18 @@ int main(int argc, char * argv[], char * envp[])
   } else
 #endif
   {
-    if (global_scope)
-      global_scope->quick_close();
+    if (global_scope) {
+      // closing the output waits for the pager, which may have failed; this
+      // happens after the try block above, so the error is reported here
+      try {
+        global_scope->quick_close();
+      }
+      catch (const std::exception& err) {
+        std::cerr << _("Error: ") << err.what() << std::endl;
+        if (status == 0)
+          status = 1;
+      }
+    }
     INFO("Ledger ended");       // let global_scope leak!
   }
 
